@@ -163,6 +163,19 @@ class Engine:
         s.pop()
         return r != z3.unsat
 
+    def push_guard(self, st, g):
+        """temporarily assume `g` while evaluating a guarded sub-expression; returns a token for pop_guards"""
+        st.pc.append(g)
+        return (len(st.pc) - 1, g)
+
+    def pop_guards(self, st, tokens):
+        """remove the guards; facts that were learned under a guard (callee postconditions, definitions) stay, weakened to
+        implications by every guard that was active when they were added"""
+        for idx, g in reversed(tokens):
+            tail = st.pc[idx + 1:]
+            del st.pc[idx:]
+            st.pc.extend(z3.Implies(g, f) for f in tail)
+
     def oblige(self, st, goal, name, kind, node=None, note=''):
         if st.spec:
             return
@@ -399,6 +412,11 @@ class Engine:
             return self.do_while(st, stmt)
         if isinstance(stmt, ast.Try):
             return self.do_try(st, stmt)
+        if isinstance(stmt, ast.ImportFrom) and stmt.module and stmt.module.startswith('static_frame'):
+            for al in stmt.names:      # function-level import of a repo class / function
+                nm = al.asname or al.name
+                st.env[nm] = VConst(('class' if al.name[:1].isupper() else 'function', al.name))
+            return [(st, (NORMAL,))]
         if isinstance(stmt, (ast.Import, ast.ImportFrom)):
             return [(st, (NORMAL,))]      # names resolve through the module environment
         if isinstance(stmt, ast.FunctionDef):
@@ -751,16 +769,14 @@ class Engine:
     def ev_cond(self, node, st):
         if isinstance(node, ast.BoolOp):
             terms = []
-            pushed = 0
+            toks = []
             try:
                 for sub in node.values:
                     t = self.ev_cond(sub, st)
                     terms.append(t)
-                    st.pc.append(t if isinstance(node.op, ast.And) else z3.Not(t))
-                    pushed += 1
+                    toks.append(self.push_guard(st, t if isinstance(node.op, ast.And) else z3.Not(t)))
             finally:
-                for _ in range(pushed):
-                    st.pc.pop()
+                self.pop_guards(st, toks)
             return z3.And(*terms) if isinstance(node.op, ast.And) else z3.Or(*terms)
         if isinstance(node, ast.UnaryOp) and isinstance(node.op, ast.Not):
             return z3.Not(self.ev_cond(node.operand, st))
@@ -811,16 +827,16 @@ class Engine:
             return self.ev(node.body, st)
         if d is False:
             return self.ev(node.orelse, st)
-        st.pc.append(c)
+        tok = self.push_guard(st, c)
         try:
             a = self.ev(node.body, st)
         finally:
-            st.pc.pop()
-        st.pc.append(z3.Not(c))
+            self.pop_guards(st, [tok])
+        tok = self.push_guard(st, z3.Not(c))
         try:
             b = self.ev(node.orelse, st)
         finally:
-            st.pc.pop()
+            self.pop_guards(st, [tok])
         try:
             return ite(c, a, b)
         except Unsupported:
@@ -830,17 +846,15 @@ class Engine:
 
     def ev_BoolOp(self, node, st):
         vals = []
-        pushed = 0
+        toks = []
         try:
             for sub in node.values:
                 v = self.ev(sub, st)
                 vals.append(v)
                 t = self.truth(v, st)
-                st.pc.append(t if isinstance(node.op, ast.And) else z3.Not(t))
-                pushed += 1
+                toks.append(self.push_guard(st, t if isinstance(node.op, ast.And) else z3.Not(t)))
         finally:
-            for _ in range(pushed):
-                st.pc.pop()
+            self.pop_guards(st, toks)
         if all(isinstance(v, VBool) for v in vals):
             ts = [v.t for v in vals]
             return VBool(z3.And(*ts) if isinstance(node.op, ast.And) else z3.Or(*ts))
@@ -951,19 +965,17 @@ class Engine:
     def ev_Compare(self, node, st):
         left = self.ev(node.left, st)
         terms = []
-        pushed = 0
+        toks = []
         try:
             for op, rnode in zip(node.ops, node.comparators):
                 right = self.ev(rnode, st)
                 t = self.compare(op, left, right, st, node)
                 terms.append(t)
                 if z3.is_expr(t):
-                    st.pc.append(t)
-                    pushed += 1
+                    toks.append(self.push_guard(st, t))
                 left = right
         finally:
-            for _ in range(pushed):
-                st.pc.pop()
+            self.pop_guards(st, toks)
         if len(terms) == 1 and not z3.is_expr(terms[0]):
             return terms[0]          # operator overloaded by contract: the result is a value (e.g. a Boolean TypeBlocks)
         return VBool(z3.And(*terms) if len(terms) > 1 else terms[0])
@@ -1092,6 +1104,14 @@ class Engine:
         raise Unsupported(f'attribute .{a} of {base!r}')
 
     def ev_Subscript(self, node, st):
+        lk = ast.unparse(node.value) + '.__getitem__'
+        if lk in self.c.get('calls', {}) and not isinstance(node.slice, ast.Slice):
+            # subscript of an opaque expression with a local call model (e.g. labels.iloc[i], window.shape[axis])
+            idx0 = self.ev(node.slice, st)
+            fake = ast.Call(func=ast.Attribute(value=node.value, attr='__getitem__', ctx=ast.Load()), args=[node.slice], keywords=[])
+            ast.copy_location(fake, node)
+            ast.fix_missing_locations(fake)
+            return self.menv.apply_contract(lk, fake, self, st, contract=self.c['calls'][lk], args=[idx0])
         base = self.ev(node.value, st)
         if isinstance(node.slice, ast.Slice):
             idx = VSlice(*[(self.ev(p, st) if p is not None else VNone())
